@@ -135,6 +135,13 @@ def _conc_index(idx):
 _SYM = object()
 
 
+class NeedConcreteMask(Exception):
+    """A boolean mask with symbolic entries is used to select: the executor forks on every entry."""
+
+    def __init__(self, mask):
+        self.mask = mask
+
+
 def arr_getitem(ex, st, arr, idx):
     sx = _sx()
     ci = _conc_index(idx)
@@ -166,7 +173,7 @@ def arr_getitem(ex, st, arr, idx):
                 alts = [a if not isinstance(a, SArr) else L.copy(a) for a in alts]
                 return ex.select_chain(alts, comp)
     if isinstance(idx, SArr) and idx.kind == "b":
-        raise Unsupported("boolean-mask read with a symbolic mask (shape would be symbolic)")
+        raise NeedConcreteMask(idx)
     if isinstance(idx, SArr) and idx.kind == "i" and idx.ndim == 1:
         rows = [arr_getitem(ex, st, arr, e) for e in idx.flat()]
         return L.stack([L.as_arr(r) for r in rows], 0) if rows else L.mk([], (0,) + arr.shape[1:], arr.kind)
@@ -327,6 +334,9 @@ def call_lib(ex, st, dotted, args, kwargs, node):
         r = concrete_fallback(dotted, args, kwargs)
         if r is not _SYM:
             return r
+        r = movement_fallback(dotted, args, kwargs)
+        if r is not _SYM:
+            return r
     raise Unsupported("library call %s at %s" % (dotted, ex.where(node, st)))
 
 
@@ -386,6 +396,57 @@ def _from_concrete(r):
     if isinstance(r, int) or r is None:
         return r
     raise Unsupported("concrete numpy result %r" % (r,))
+
+
+MOVEMENT = {"meshgrid", "take", "flip", "fliplr", "flipud", "roll", "rot90", "swapaxes", "moveaxis", "ravel",
+            "broadcast_to", "column_stack", "row_stack", "dstack", "atleast_2d", "atleast_3d", "transpose", "tile",
+            "repeat", "take_along_axis", "split", "array_split", "hsplit", "vsplit", "resize", "rollaxis", "block"}
+
+
+def movement_fallback(dotted, args, kwargs):
+    """Pure data-movement numpy functions (whitelist): the checker's numpy is run on arrays of element
+    IDENTIFIERS and the symbolic elements are put back in the places the identifiers end up."""
+    name = dotted.split(".")[-1]
+    if dotted.count(".") != 1 or name not in MOVEMENT:
+        return _SYM
+    table = []
+
+    def enc(v):
+        if isinstance(v, SArr):
+            base = len(table)
+            fl = v.flat()
+            table.extend((x, v.kind) for x in fl)
+            return _np.arange(base, base + len(fl), dtype=_np.int64).reshape(v.shape)
+        if isinstance(v, (list, tuple)):
+            return type(v)(enc(x) for x in v)
+        c = _to_concrete(v)
+        if c is _SYM:
+            raise Unsupported("symbolic non-array argument to numpy.%s" % name)
+        return c
+    try:
+        cargs = [enc(a) for a in args]
+        ckw = {k: enc(v) for k, v in kwargs.items()}
+        r = getattr(_np, name)(*cargs, **ckw)
+    except Unsupported:
+        return _SYM
+    except Exception as e:
+        raise Unsupported("numpy.%s on identifiers failed: %s" % (name, e))
+
+    def dec(x):
+        if isinstance(x, _np.ndarray):
+            if not _np.issubdtype(x.dtype, _np.integer):
+                raise Unsupported("numpy.%s is not pure data movement here" % name)
+            fl = [int(i) for i in x.reshape(-1)]
+            if any(i < 0 or i >= len(table) for i in fl):
+                raise Unsupported("numpy.%s produced values that are not input elements" % name)
+            kinds = set(table[i][1] for i in fl)
+            kind = "f" if "f" in kinds else (kinds.pop() if kinds else "f")
+            return L.mk([table[i][0] for i in fl], x.shape, kind)
+        if isinstance(x, (list, tuple)):
+            return type(x)(dec(y) for y in x)
+        raise Unsupported("numpy.%s result" % name)
+    L.used("numpy.%s: pure data movement (evaluated on element identifiers by the checker's numpy)" % name)
+    return dec(r)
 
 
 def concrete_fallback(dotted, args, kwargs):
@@ -838,7 +899,7 @@ NP = {
     "numpy.min": np_min, "numpy.max": np_max, "numpy.amin": np_min, "numpy.amax": np_max,
     "numpy.mean": np_mean, "numpy.var": np_var, "numpy.argmax": np_argmax, "numpy.argmin": np_argmin,
     "numpy.sqrt": np_sqrt, "numpy.log": np_log, "numpy.exp": np_exp, "numpy.sin": np_sin,
-    "numpy.cos": np_cos, "numpy.tan": np_tan, "numpy.radians": np_radians, "numpy.ceil": np_ceil,
+    "numpy.cos": np_cos, "numpy.tan": np_tan, "numpy.radians": np_radians, "numpy.deg2rad": np_radians, "numpy.ceil": np_ceil,
     "numpy.power": np_power, "numpy.maximum": np_maximum, "numpy.minimum": np_minimum,
     "numpy.abs": np_abs, "numpy.absolute": np_abs, "numpy.linalg.norm": np_norm,
     "numpy.matmul": np_matmul, "numpy.dot": np_dot, "numpy.where": np_where, "numpy.delete": np_delete,
@@ -880,6 +941,39 @@ def sk_euclidean(ex, st, args, kwargs):
     return L.mk(out, (X.shape[0], Y.shape[0]), "f")
 
 
+def sp_minimize(ex, st, args, kwargs):
+    """scipy.optimize.minimize(fun, x0, method, constraints): the objective and every constraint function are
+    evaluated on a fresh symbolic point (recorded in ctx.nlp so a contract can compare the PROGRAM with the
+    specification's); the result object carries a fresh point res.x that satisfies the constraints
+    (ASSUMED contract: a global minimiser of the convex program is returned)."""
+    sx = _sx()
+    L.used("scipy.optimize.minimize: A-SOLVE (returns a global minimiser of the program it is given; feasible)")
+    fun, x0 = args[0], L.as_arr(args[1])
+    n = x0.shape[0]
+    z = L.fresh_array("nlp_z!%d" % V.fresh_id(), (n,))
+    zs = L.fresh_array("nlp_star!%d" % V.fresh_id(), (n,))
+
+    def call1(f, arg):
+        r = ex.call(f, [L.copy(arg)], {}, st, None)
+        if len(r) != 1 or isinstance(r[0][1], Abort):
+            raise Unsupported("objective / constraint function forks or raises")
+        return r[0][1]
+    obj = call1(fun, z)
+    cons = []
+    for c in kwargs.get("constraints", []) or []:
+        if not isinstance(c, dict) or "fun" not in c:
+            raise Unsupported("constraint specification")
+        val = L.as_arr(call1(c["fun"], z))
+        val_star = L.as_arr(call1(c["fun"], zs))
+        cons.append({"type": c.get("type"), "at_z": val, "at_star": val_star})
+        for v in val_star.flat():
+            st.pc.append(V.R(v) >= 0 if c.get("type") == "ineq" else V.R(v) == 0)
+    ex.ctx.nlp.append({"z": z, "star": zs, "objective": obj, "constraints": cons, "x0": L.copy(x0),
+                       "method": kwargs.get("method")})
+    return SObj("OptimizeResult", {"x": zs, "success": True})
+
+
+NP["scipy.optimize.minimize"] = sp_minimize
 NP["sklearn.metrics.pairwise.euclidean_distances"] = sk_euclidean
 NP["itertools.product"] = it_product
 NP["itertools.combinations"] = it_combinations
